@@ -69,6 +69,11 @@ def generate(rng, n, tier):
                 c["pre"] = [o for o in c["pre"] if o["op"] not in ("Step", "Solve", "SetLimits", "Finalize")] + \
                            [dict(op="Step", cb=False) for _ in range(rng.randint(2, 4))]
                 c["post"] = [dict(op="Step", cb=False) for _ in range(rng.randint(5, 8))]
+        if rng.random() < 0.25 and not any(o["op"] == "SetTermination" and o["term"].get("kind") == "or_collapse" for o in c["pre"]):
+            # a termination condition that reads the trial solution(s) the last iteration left behind: part of the state a snapshot must carry
+            for o in c["pre"] + c["post"]:
+                if o["op"] == "SetTermination":
+                    o["term"] = dict(kind="or", a=o["term"], b=dict(kind="solimp", tol=rng.choice([0.05, 0.25, 1.0, 3.0])))
         if rng.random() < 0.2:
             # one long Solve (DE settings given as keywords) with periodic dumps; resume from the last dump and catch up
             cfg = [o for o in ops if o["op"] not in ("Step", "Solve", "SetLimits", "Finalize")]
@@ -81,10 +86,11 @@ def generate(rng, n, tier):
             c["post"] = []
             c["action"] = "midsolve"
             c["every"] = rng.choice([2, 3])
+        G.fix_deferred(c["pre"]); G.fix_deferred(c["post"])
         yield c
 
 
-FIELDS = ("pop", "popE", "bestX", "bestE", "evals", "gens", "ehist", "shist", "emx", "emy", "msg", "ncalls", "maxiter", "maxfun", "mon_shape")
+FIELDS = ("pop", "popE", "bestX", "bestE", "evals", "gens", "ehist", "shist", "emx", "emy", "msg", "ncalls", "maxiter", "maxfun", "mon_shape", "term_now", "trial")
 
 
 def view(s):
